@@ -125,16 +125,23 @@ class ReverseProxy(TcpUpstreamConnectionHandler, HttpWebServerBasePlugin):
                 if self.choice.scheme == HTTP_PROTO
                 else self.choice.port or DEFAULT_HTTPS_PORT
             )
-            self.initialize_upstream(text_(self.choice.hostname), port)
+            # Follow-up requests of a kept-alive client connection going to
+            # the same upstream reuse the established upstream connection.
+            reuse = self.upstream is not None and \
+                not self.upstream.closed and \
+                self.upstream.addr == (text_(self.choice.hostname), port)
+            if not reuse:
+                self.initialize_upstream(text_(self.choice.hostname), port)
             assert self.upstream
             try:
-                self.upstream.connect()
-                if self.choice.scheme == HTTPS_PROTO:
-                    self.upstream.wrap(
-                        text_(self.choice.hostname),
-                        as_non_blocking=True,
-                        ca_file=self.flags.ca_file,
-                    )
+                if not reuse:
+                    self.upstream.connect()
+                    if self.choice.scheme == HTTPS_PROTO:
+                        self.upstream.wrap(
+                            text_(self.choice.hostname),
+                            as_non_blocking=True,
+                            ca_file=self.flags.ca_file,
+                        )
                 request.path = self.choice.remainder
                 self.upstream.queue(
                     memoryview(
